@@ -88,8 +88,10 @@ func list2TestKeyArgs(
 				keyFunc = ResolveToCaller(s, args[pos+1], depth)
 			case ":test":
 				testFunc = ResolveToCaller(s, args[pos+1], depth)
+			case ":test-not":
+				testFunc = notCaller{Caller: ResolveToCaller(s, args[pos+1], depth)}
 			default:
-				slip.TypePanic(s, depth, "keyword", sym, ":key", ":test")
+				slip.TypePanic(s, depth, "keyword", sym, ":key", ":test", ":test-not")
 			}
 		}
 	}
